@@ -28,6 +28,7 @@ UNDER = "('_' + prefix + '__' + s[1:])"
 def register(reg):
     S = ['C17']
     register_templates(reg)
+    register_mangle_tree(reg)
     reg.contract('lark.load_grammar:_get_mangle.<locals>.mangle', serves=S,
                  params={'s': 'str', 'prefix': 'str', 'aliases': 'dict[str,str]', 'base_mangle': 'none'}, returns='str',
                  requires=['len(s) >= 1', 'len(prefix) >= 1'],
@@ -123,3 +124,54 @@ def register_templates(reg):
                                          ] + ['%s[3].%s == options.%s' % (LAST, f, f) for f in OPT]},
                  types={'@list%d' % 0: 'list[any]'},
                  names={'deepcopy': ('contract', 'deepcopy/RuleOptions'), 'RuleOptions': ('class', 'RuleOptions')}, replay=_replay)
+
+
+# ---- renaming the symbols of an imported definition: every symbol occurrence in every subtree, nothing else
+def register_mangle_tree(reg):
+    reg.cls('Symbol', target='lark.grammar:Symbol')
+    reg.cls('DTree', fields={'children': 'list[any]', 'data': 'any'})
+    reg.specfun('NSUB', [('t', 'DTree')], 'int', doc='number of distinct subtrees (the tree itself included)')
+    reg.specfun('SUB', [('t', 'DTree'), ('k', 'int')], 'DTree', doc='k-th subtree in the order of iter_subtrees()')
+    reg.specfun('CL', [('t', 'DTree')], 'list[any]', doc='the children list a freshly copied subtree was created with')
+    reg.specfun('CHN', [('t', 'DTree')], 'int')
+    reg.specfun('CHAT', [('t', 'DTree'), ('i', 'int')], 'any', doc='content of that list at copy time')
+    reg.specfun('REN', [('c', 'any'), ('f', 'any')], 'any', doc='the symbol c renamed by f: c.renamed(f)')
+    reg.contract('lark.grammar:Symbol.renamed', assumed=True, kind='method', pure=True, params={'self': 'Symbol', 'f': 'any'}, returns='Symbol',
+                 ensures=['cast(result, any) == REN(cast(self, any), f)'])
+    # iter_subtrees() computes the whole list of distinct subtrees before yielding (lark/tree.py): later edits of children do not change it
+    reg.contract('DTree.iter_subtrees', assumed=True, kind='method', pure=True, params={'self': 'DTree'}, returns='seq[DTree]',
+                 ensures=['len(result) == NSUB(self)', 'all(result[k] is SUB(self, k) for k in range(0, NSUB(self)))'])
+    K = 'for k in range(0, NSUB(x))'
+    reg.contract('deepcopy/DTree', assumed=True, params={'x': 'DTree'}, returns='DTree',
+                 ensures=['fresh(result)', 'NSUB(result) == NSUB(x)', 'NSUB(x) >= 1',
+                          # the copy is a tree of new nodes with new children lists, one per subtree of the original, in the same order ...
+                          'all(fresh(SUB(result, k)) and fresh(CL(SUB(result, k))) and SUB(result, k).children is CL(SUB(result, k)) %s)' % K,
+                          'all(implies(k != j, SUB(result, k) is not SUB(result, j) and CL(SUB(result, k)) is not CL(SUB(result, j))) %s for j in range(0, NSUB(x)))' % K,
+                          'all(len(CL(SUB(result, k))) == CHN(SUB(result, k)) and CHN(SUB(result, k)) == len(SUB(x, k).children) %s)' % K,
+                          'all(CL(SUB(result, k))[i] == CHAT(SUB(result, k), i) %s for i in range(0, CHN(SUB(result, k))))' % K,
+                          # ... whose symbol children are the original's symbols, and whose other children are not symbols
+                          'all(isinstance(CHAT(SUB(result, k), i), Symbol) == isinstance(SUB(x, k).children[i], Symbol) '
+                          'and implies(isinstance(SUB(x, k).children[i], Symbol), CHAT(SUB(result, k), i) == SUB(x, k).children[i]) %s for i in range(0, CHN(SUB(result, k))))' % K])
+    NEW = '(REN(CHAT(%(t)s, %(i)s), mangle) if isinstance(CHAT(%(t)s, %(i)s), Symbol) else CHAT(%(t)s, %(i)s))'
+    S = 'SUB(exp, k)'
+    FRAME = ['all(SUB(exp, k).children is CL(SUB(exp, k)) and len(CL(SUB(exp, k))) == CHN(SUB(exp, k)) for k in range(0, NSUB(exp)))']
+    reg.contract('lark.load_grammar:_mangle_definition_tree', serves=['C17'],
+                 params={'exp': 'DTree', 'mangle': 'any'}, returns='DTree', modifies=[],
+                 ensures=['implies(mangle is None, result is exp)',
+                          'implies(mangle is not None, fresh(result) and NSUB(result) == NSUB(exp))',
+                          # every symbol occurrence of every subtree is renamed; the shape is kept
+                          'implies(mangle is not None, all(len(SUB(result, k).children) == old(len(SUB(exp, k).children)) for k in range(0, NSUB(exp))))',
+                          'implies(mangle is not None, all(implies(isinstance(old(SUB(exp, k).children[i]), Symbol), SUB(result, k).children[i] == REN(old(SUB(exp, k).children[i]), mangle)) '
+                          'for k in range(0, NSUB(exp)) for i in range(0, old(len(SUB(exp, k).children)))))',
+                          'implies(mangle is not None, all(implies(not isinstance(old(SUB(exp, k).children[i]), Symbol), SUB(result, k).children[i] == CHAT(SUB(result, k), i)) '
+                          'for k in range(0, NSUB(exp)) for i in range(0, old(len(SUB(exp, k).children)))))'],
+                 loops={0: dict(inv=FRAME + [
+                            'all(CL(%s)[i] == %s for k in range(0, _i0) for i in range(0, CHN(%s)))' % (S, NEW % dict(t=S, i='i'), S),
+                            'all(CL(%s)[i] == CHAT(%s, i) for k in range(_i0, NSUB(exp)) for i in range(0, CHN(%s)))' % (S, S, S)]),
+                        1: dict(inv=FRAME + [
+                            't is SUB(exp, _i0)', '0 <= _i0', '_i0 < NSUB(exp)',
+                            'all(CL(t)[j] == %s for j in range(0, _i1))' % (NEW % dict(t='t', i='j')),
+                            'all(CL(t)[j] == CHAT(t, j) for j in range(_i1, CHN(t)))',
+                            'all(CL(%s)[i] == %s for k in range(0, _i0) for i in range(0, CHN(%s)))' % (S, NEW % dict(t=S, i='i'), S),
+                            'all(CL(%s)[i] == CHAT(%s, i) for k in range(_i0 + 1, NSUB(exp)) for i in range(0, CHN(%s)))' % (S, S, S)])},
+                 names={'deepcopy': ('contract', 'deepcopy/DTree'), 'Symbol': ('class', 'Symbol')}, replay=_replay)
